@@ -83,6 +83,35 @@ CLAIMS["C15"] = (
     "does not raise.",
     "DESIGN.md §2 C15")
 
+CLAIMS["C01"] = (
+    "ledger-discipline analysis: cells and mirror/complement ledgers discovered from dataflow, "
+    "per-suite paired-update check with polynomial normal forms, residual liveness on the CFG, "
+    "provenance / sign-mirror / dual-branch term rules",
+    "Decides necessary structural conditions of conservation on the parsed source: in every "
+    "statement suite of the three allocation functions Δcells == Δmirror == -Δcomplement (so the "
+    "invariant mirror = Σcells, complement = request - Σcells is preserved by every statement); a "
+    "complement ledger decremented in a loop is consumed afterwards; the returned remainder is "
+    "that ledger threaded through top-up and split; the supply path negates request, every cell "
+    "and the remainder, and its bounds are the dual of the consume bounds; the API map is the "
+    "distribution. It does NOT decide the numeric shares (sign of each set-point, |remainder| <= "
+    "|request|).",
+    "Trusted: the algebraic oracle (invariant preserved iff paired per suite); cells = _Power.power "
+    "fields / float dict entries as discovered and printed in the evidence.",
+    "DESIGN.md §2 C01")
+CLAIMS["C02"] = (
+    "term-shape rules on caps/minimum powers/SoC headroom + guard-dominance rules on the CFGs of "
+    "the allocation loop, greedy top-up and per-inverter split",
+    "Decides the cap/guard discipline the bounds property needs: top-up increments are min(upper - "
+    "power, …) of the same cell; caps are min(Σ inverter incl, battery incl) and minimum powers "
+    "max(battery excl, min inverter excl); non-zero inverter set-points are guarded by excl <= "
+    "remaining and equal min(incl, remaining); SoC headroom is clamped at zero per direction and "
+    "every non-zero allocation is control-dependent on that set's own availability ratio; the "
+    "admission check dominates the distribution. The numeric range of proportional shares is not "
+    "decided.",
+    "Trusted: same cell discovery as C01; exact textual shape of the four min/max definitions is "
+    "compared after whitespace normalisation (a reordering of min/max arguments is tolerated).",
+    "DESIGN.md §2 C02")
+
 PENDING_REASON = ("no static check is registered for this property yet in this revision of the "
                   "machinery (planned rules are in DESIGN.md §2); nothing is claimed for it")
 
